@@ -2,9 +2,11 @@ package main
 
 import (
 	"fmt"
+
 	"go/ast"
 	"go/token"
 	"go/types"
+	"golang.org/x/tools/go/cfg"
 	"strings"
 )
 
@@ -225,17 +227,19 @@ func ruleR13(c *Ctx) {
 				if _, ok := cmpGuard(gd.atom.e, token.LSS, lower); ok {
 					// true edge of `< lower`: must go back to the loop (no exit reachable without passing the loop head)
 					tgt := gd.b.Succs[gd.succ]
-					exits := false
-					if len(tgt.Succs) == 0 {
-						exits = true
-					}
-					for _, n := range tgt.Nodes {
-						if br, ok := n.(*ast.BranchStmt); ok && br.Tok == token.BREAK {
-							exits = true
+					// follow the edge: it must lead back to the head of the worklist loop, not out of it
+					exits := true
+					seen := map[*cfg.Block]bool{}
+					for cur := tgt; cur != nil && !seen[cur]; {
+						seen[cur] = true
+						if cur.Kind == cfg.KindForLoop {
+							exits = false
+							break
 						}
-						if _, ok := n.(*ast.ReturnStmt); ok {
-							exits = true
+						if len(cur.Succs) != 1 || len(cur.Nodes) != 0 {
+							break
 						}
+						cur = cur.Succs[0]
 					}
 					key := "rangeScan key below the lower bound is skipped, not a stop"
 					if exits {
